@@ -307,7 +307,8 @@ def main():
         for rank in (2, 3):        # 1-D data is refused by the wrapper (the reducer returns a scalar, not an array)
             for axis in range(rank):
                 for ln in ((1, 2, 3) if a.tier == 'quick' else (1, 2, 3, 4, 5)):
-                    for dt in (('float64',) if a.tier == 'quick' else ('float32', 'float64')): units.append(('disc', name, rank, axis, ln, dt))
+                    for dt in (('float64', 'float32') if (a.tier != 'quick' or ln == 2) else ('float64',)): units.append(('disc', name, rank, axis, ln, dt))
+    for name in ('nanmax', 'nansum'): units.append(('disc', name, 2, 1, 2, 'float16'))
     def work(sub, kind, *args):
         if kind == 'hw': hw_scalar(u, sub, args[0], timeout)
         elif kind == 'grp': hw_grouping(u, sub, *args, timeout)
